@@ -971,6 +971,16 @@ Section HashMap.
         ns <- sset i (mknode kdflt vdflt false (hfree m)) (hnodes m) ;;
         Ok (mkhm (hbuckets m) ns (hsize m - 1) (Some i), Some (nval nd))
     end.
+  (* next(m) / next(m, key) of the flat map: the key's node by scanning, then the next filled node *)
+  Definition fm_next (key : option K) (m : hmap) : res (option (K * V)) :=
+    start <- (match key with
+              | None => Ok 0
+              | Some k => match fm_find k m with None => Trap TrapInvalidKey | Some i => Ok (S i) end
+              end) ;;
+    Ok (match hm_scan (skipn start (hnodes m)) start with
+        | None => None
+        | Some (_, nd) => Some (nkey nd, nval nd)
+        end).
   Fixpoint fm_pairs_erase_loop (pred : K -> V -> bool) (fuel : nat) (it : option nat) (m : hmap)
     : res (list (K * V) * hmap) :=
     match fuel with
